@@ -30,7 +30,7 @@ type Case struct {
 	Alg     string
 	Shape   gen.Shape
 	Pair    string // same-repo same-reg two-reg reg2dir dir2reg dir2dir
-	Pre     string // empty partial stale complete tagged-incomplete
+	Pre     string // empty partial stale complete tagged-incomplete partial-manifests tagged-manifest-gone
 	Opt     string // default recursive referrers referrers-filter digest-tags external fast
 	Mount   string // grant decline refuse (same-reg only)
 	SrcAPI  bool   // referrers API at the source registry
@@ -48,7 +48,7 @@ func (c Case) Key() string {
 
 var (
 	pairs = []string{"two-reg", "two-reg", "same-reg", "same-reg", "same-repo", "reg2dir", "dir2reg", "dir2dir"}
-	pres  = []string{"empty", "empty", "partial", "stale", "complete", "tagged-incomplete", "partial-manifests"}
+	pres  = []string{"empty", "empty", "partial", "stale", "complete", "tagged-incomplete", "partial-manifests", "tagged-manifest-gone"}
 	opts  = []string{"default", "default", "default", "recursive", "referrers", "referrers", "referrers-filter", "digest-tags", "external", "fast"}
 )
 
@@ -270,6 +270,15 @@ func Setup(c Case) (*Result, error) {
 	case "tagged-incomplete":
 		tags[r.TgtTag] = g.Top
 		keep = func(n *gen.Node) bool { return n.ID == top.ID }
+	case "tagged-manifest-gone":
+		// a damaged layout: the index lists the tag with the right digest, the manifest file is gone
+		// (a registry cannot be in that state: there it is "tagged-incomplete")
+		tags[r.TgtTag] = g.Top
+		if r.Tgt.IsDir() {
+			keep = func(n *gen.Node) bool { return false }
+		} else {
+			keep = func(n *gen.Node) bool { return n.ID == top.ID }
+		}
 	}
 	if c.Pair != "same-repo" {
 		if err := PrePopulate(r.Tgt, g, keep, tags); err != nil {
